@@ -92,7 +92,7 @@ Qed.
 
 Lemma cpc_eqb_ok : eqb_ok cpc_eqb.
 Proof.
-  intros [| |x|f p] [| |y|g q]; simpl; intros H; try discriminate; try reflexivity; split_andb; f_equal;
+  intros [| |x|f p|f|] [| |y|g q|g|]; simpl; intros H; try discriminate; try reflexivity; split_andb; f_equal;
     try (apply Z_eqb_ok; assumption); try (apply nat_eqb_ok; assumption); try (apply bool_eqb_ok; assumption).
 Qed.
 
@@ -332,11 +332,14 @@ Proof.
 Qed.
 
 Lemma check_universe_sound : forall fl U fuel, check_universe fl U fuel = true ->
-  forall cf, In cf U -> C18_outside_K_statement fl cf /\ (racy cf = false -> C18_full_statement fl cf).
+  forall cf, In cf U ->
+    C18_outside_K_statement fl cf /\ (fl_busy_guard fl = true \/ racy cf = false -> C18_full_statement fl cf).
 Proof.
   intros fl U fuel H cf Hin. unfold check_universe in H. rewrite forallb_forall in H.
-  specialize (H cf Hin). unfold conf_pred in H. destruct (racy cf) eqn:Er.
-  - split; [eapply check_conf_outside; exact H | discriminate].
+  specialize (H cf Hin). unfold conf_pred in H. destruct (racy cf && negb (fl_busy_guard fl)) eqn:Er.
+  - split; [eapply check_conf_outside; exact H |].
+    apply andb_true_iff in Er. destruct Er as [Er1 Er2]. apply negb_true_iff in Er2.
+    intros [Hg | Hr]; congruence.
   - pose proof (check_conf_full _ _ _ H) as Hf. split; [apply full_implies_outside; exact Hf | intros _; exact Hf].
 Qed.
 
